@@ -684,13 +684,20 @@ theorem navierStokes_eq_doc (h : EvalHom ops ev) (nu rho : Rat) (u : Nat → F) 
   unfold nsDoc advection laplacian
   simp only [ev_sub h, h.add, h.mul, h.smul, ev_sum_two h]
 
-/-- role of the viscosity and of the density: affine in `ν` (slope `−Δu_k`) and in `ρ⁻¹` (slope `∂k p`) -/
-theorem navierStokes_affine (h : EvalHom ops ev) (nu rho : Rat) (u : Nat → F) (p : F) (k : Nat) (hk : k < 2) :
+/-- role of the viscosity: the residual is affine in `ν` with slope `−Δu_k` -/
+theorem navierStokes_affine_nu (h : EvalHom ops ev) (nu rho : Rat) (u : Nat → F) (p : F) (k : Nat) (hk : k < 2) :
     ev (nth ops (navierStokes ops nu rho u p) k) =
-      ev (nth ops (navierStokes ops 0 1 u (ops.zero)) k)
-        + (1 / rho) * ev (ops.dX k p)
-        + nu * (-(ev (ops.dX 0 (ops.dX 0 (u k))) + ev (ops.dX 1 (ops.dX 1 (u k))))) - ev (ops.dX k ops.zero) := by
-  rw [navierStokes_value h nu rho u p k hk, navierStokes_value h 0 1 u ops.zero k hk]
+      ev (nth ops (navierStokes ops 0 rho u p) k)
+        + nu * (-(ev (ops.dX 0 (ops.dX 0 (u k))) + ev (ops.dX 1 (ops.dX 1 (u k))))) := by
+  rw [navierStokes_value h nu rho u p k hk, navierStokes_value h 0 rho u p k hk]
+  ring
+
+/-- role of the density: it enters through `ρ⁻¹` only, multiplying `∂k p` (component `k` of the pressure gradient) -/
+theorem navierStokes_role_rho (h : EvalHom ops ev) (nu rho rho' : Rat) (u : Nat → F) (p : F) (k : Nat)
+    (hk : k < 2) :
+    ev (nth ops (navierStokes ops nu rho u p) k) - ev (nth ops (navierStokes ops nu rho' u p) k) =
+      (1 / rho - 1 / rho') * ev (ops.dX k p) := by
+  rw [navierStokes_value h nu rho u p k hk, navierStokes_value h nu rho' u p k hk]
   ring
 
 /-- the residual vanishes exactly where the stationary momentum equation holds -/
